@@ -454,6 +454,9 @@ func c11BuildAlphabet(ch *c11Chain, thorough bool) *c11Alphabet {
 	ch.c11AddDV(al, 6, true)
 	ch.c11AddDV(al, 3, thorough)
 	ch.c11AddDV(al, 8, thorough)
+	// the last height of validator epoch A: the Update that decides it has Validators (epoch B) != LastValidators (epoch A),
+	// which is where evidence built from reported votes must still use the set of the votes' own height
+	ch.c11AddDV(al, c11ChangeAt-1, false)
 	ch.c11AddLC(al, thorough)
 	return al
 }
